@@ -22,6 +22,7 @@ from __future__ import annotations
 
 import ast
 import os
+import sys
 
 from ..cfg import cfg_of
 from ..core import Ctx, key_of
@@ -173,6 +174,10 @@ def run(ctx: Ctx):
                         for s in trynode.body)
         after_import = sets_true and [i for i, s in enumerate(trynode.body) if isinstance(s, ast.ImportFrom)][0] < \
             [i for i, s in enumerate(trynode.body) if isinstance(s, ast.Assign)][0]
+        # ... or in the `else:` of the try, which runs exactly when the import raised nothing
+        if not sets_true and any(isinstance(s, ast.Assign) and norm(s.targets[0]) == "_USE_CYTHON" and isinstance(s.value, ast.Constant)
+                                 and s.value.value is True for s in trynode.orelse):
+            sets_true = after_import = True
         h_ok = any((dotted(h.type) == "ImportError") and any(isinstance(s, ast.Assign) and norm(s.targets[0]) == "_USE_CYTHON"
                                                              and isinstance(s.value, ast.Constant) and s.value.value is False for s in h.body)
                    for h in trynode.handlers)
@@ -290,6 +295,11 @@ def run(ctx: Ctx):
         try:
             fast_t, fall_t = _tables(fn, guard, call, pf, lem)
             eq, detail = P.compare_tables(fast_t, fall_t)
+            if not eq and os.environ.get("SPVERIF_DEBUG_PAIR"):
+                import pprint
+                assign, ra, rb = detail[0]
+                print("DEBUG-PAIR", pair_name if "pair_name" in dir() else "", file=sys.stderr)
+                pprint.pprint({"assign": assign, "fast": ra, "fallback": rb}, stream=sys.stderr, width=200)
         except Inconclusive as e:
             raise Inconclusive(f"{inst}: {e}")
         ctx.stats.setdefault("table_rows", {})[inst] = [len(fast_t), len(fall_t)]
